@@ -22,8 +22,8 @@ func init() {
 			"per-client order is checked for subscribed (rw) clients; operations pushed by the administrative patch client are checked for sseq / end-of-log only",
 		},
 		Trusted: []string{"fakemongo", "fakemqtt", "harness transport (direct mode)", "monitors in /verif/harness"},
-		Cases:   func(t string) int { return tierN(t, 500, 8000) },
-		Floor:   func(t string) int { return tierN(t, 60, 1000) },
+		Cases:   func(t string) int { return tierN(t, 1000, 8000) },
+		Floor:   func(t string) int { return tierN(t, 120, 1000) },
 		Run:     runC06,
 	})
 }
